@@ -12,6 +12,11 @@ PAT_ARGS = {  # positions of sub-patterns (single) per constructor
     'unop': [2], 'binop': [2, 3], 'narop': [2, 3, 4]}
 
 
+def seed_py(sd):
+    """Seed of a term: an int, or 'f<float>' for a float seed."""
+    return float(sd[1:]) if isinstance(sd, str) else int(sd)
+
+
 def derive(t):
     """Replace every seeded random pattern by the deterministic pattern it denotes for the draws
     `random.Random(seed)` delivers (the Mersenne Twister is the oracle stream, not modelled):
@@ -20,8 +25,11 @@ def derive(t):
     if not isinstance(t, list) or not t or not isinstance(t[0], str):
         return t
     k = t[0]
+    if k == 'pseed' and isinstance(t[1], list):
+        # a seed PATTERN (finite): one pass per seed value, then the Pseed ends
+        return ['seq', [derive(['pseed', sd, t[2]])[1] for sd in t[1][1:]], 1, 0]
     if k == 'pseed':
-        seed, rp = t[1], t[2]
+        seed, rp = seed_py(t[1]), t[2]
         items = [derive(x) for x in rp[1]]
         size, n = len(items), rp[2]
         R = _random.Random(seed)
@@ -318,7 +326,9 @@ class Gen:
         # num
         x = r.random()
         if x < 0.06:
-            return ['pseed', r.randint(0, 99),
+            sd = lambda: r.choice([0, 0, 'f0.0', -1, -7, 2 ** 40 + 3, 'f2.5', 1, r.randint(2, 99), r.randint(2, 99)])
+            seed = sd() if r.random() < 0.7 else ['S'] + [sd() for _ in range(r.randint(1, 3))]
+            return ['pseed', seed,
                     [r.choice(['prand', 'pxrand', 'pshuffle']), self.items('num', d, 1, 5), r.randint(0, 5)]]
         if x < 0.3:
             return self.listpat('num', d)
@@ -351,7 +361,22 @@ class Gen:
         if x < 0.84:
             return ['pif', self.pat('bool', d - 1), self.pat('num', d - 1), self.pat('num', d - 1)]
         if x < 0.88:
-            if r.random() < 0.5:
+            y = r.random()
+            if y < 0.4:
+                # bounds given as patterns whose width changes from step to step (floats and ints),
+                # values well outside the bounds: each step uses that step's bounds
+                k = r.randint(2, 5)
+                fl = r.random() < 0.7
+                los = [r.randint(-12, 12) for _ in range(k)]
+                his = [l + r.randint(1, 12) for l in los]
+                mk = (lambda v: self.c(['f', f'{v}/4'])) if fl else (lambda v: self.c(['i', v]))
+                rep = r.choice([1, 2, 'inf', 'inf'])
+                src = ['collect', ['binR', 'mul', 'id', ['f', '3/2']], self.pat('num', d - 1)] if fl else self.pat('int', d - 1)
+                if r.random() < 0.5:
+                    src = ['seq', [self.c(['f', f'{r.randint(-60, 60)}/4']) if fl else self.c(['i', r.randint(-15, 15)])
+                                   for _ in range(r.randint(3, 7))], r.choice([1, 2]), 0]
+                return ['wrap', src, ['seq', [mk(v) for v in los], rep, 0], ['seq', [mk(v) for v in his], rep, 0]]
+            if y < 0.7:
                 lo = r.randint(-3, 3); hi = lo + r.randint(0, 5)
                 return ['wrap', self.pat('int', d - 1), self.c(['i', lo]), self.c(['i', hi])]
             lo = r.randint(-12, 12); hi = lo + r.randint(1, 20)
@@ -367,6 +392,17 @@ class Gen:
             if o == 'div':
                 b = self.c(['i', r.choice([1, 2, 4, -2, 8, 0])])
             return ['binop', o, self.pat('num', d - 1), b, r.choice(['op', 'cls'])]
+        if r.random() < 0.4:
+            k = r.randint(2, 5)
+            fl = r.random() < 0.6
+            los = [r.randint(-12, 12) for _ in range(k)]
+            his = [l + r.randint(1, 12) for l in los]
+            mk = (lambda v: self.c(['f', f'{v}/4'])) if fl else (lambda v: self.c(['i', v]))
+            rep = r.choice([1, 2, 'inf'])
+            src = ['seq', [self.c(['f', f'{r.randint(-60, 60)}/4']) if fl else self.c(['i', r.randint(-15, 15)])
+                           for _ in range(r.randint(3, 7))], r.choice([1, 2]), 0]
+            return ['narop', r.choice(['clip', 'wrap']), src, ['seq', [mk(v) for v in los], rep, 0],
+                    ['seq', [mk(v) for v in his], rep, 0]]
         lo = r.randint(-3, 3); hi = lo + r.randint(0, 6)
         return ['narop', r.choice(['clip', 'wrap']), self.pat('int', d - 1), self.c(['i', lo]),
                 self.c(['i', hi]) if r.random() < 0.8 else self.pat('int', d - 1)]
